@@ -763,6 +763,13 @@ def search(ctx):
         msg = oracle_seed_change(cfg, dict(cfg, rand_seed=12))
         if msg:
             ctx.fail(dict(oracle='seed-change', what=msg[0]), msg[1], dict(kind='seedchange', cfg=cfg, cfg2=dict(cfg, rand_seed=12)))
+        if net in ('random', 'mf'):
+            # boundary value: seed 0 is a valid seed of its own (a falsy-zero idiom anywhere on the way makes it an alias of another seed)
+            for s0, s1 in ((0, 1), (0, 2)):
+                c0, c1 = dict(cfg, rand_seed=s0), dict(cfg, rand_seed=s1)
+                msg = oracle_seed_change(c0, c1)
+                if msg:
+                    ctx.fail(dict(oracle='seed-change', what=msg[0]), msg[1], dict(kind='seedchange', cfg=c0, cfg2=c1))
 
 
 def stream_family_cfgs(ctx):
